@@ -160,6 +160,10 @@ func c07One(r *ev.Run, seed *Case, l *loaderFn, failAt, kind, chunk, mode int) {
 // C07: the returned stream replays the complete input.
 func C07(tier string) {
 	r := ev.Begin("C07", tier, "fault_enumeration")
+	envxSelfTest(r, "harness")
+	if r.NViolations() > 0 {
+		r.Finish()
+	}
 	r.NotExhaustive()
 	small := append(smallSeeds(), corruptSeeds()...)
 	repo := repoImages()
